@@ -375,18 +375,24 @@ def grid_stack(ctx, p):
                         k = els[-1].value
                 comps.append(k)
                 masks.add(norm_text(wire.strip_np_array([v for kk, v in b.items() if kk.startswith("mask")][0])))
-                tgt = [n.targets[0].id for n in f.body_nodes() if isinstance(n, ast.Assign) and n.value is c and isinstance(n.targets[0], ast.Name)]
-                names.append(tgt[0] if tgt else None)
             rets = wire.returns_of(f)
             stack = rets[0].value if rets else None
             order = None
             axis = None
-            if isinstance(stack, ast.Call) and norm_text(stack.func) in ("np.stack", "numpy.stack") and stack.args and isinstance(stack.args[0], (ast.Tuple, ast.List)):
-                order = [norm_text(x) for x in stack.args[0].elts]
+            if isinstance(stack, ast.Call) and norm_text(stack.func) in ("np.stack", "numpy.stack") and stack.args:
+                seq = wire.resolve_local(f, stack.args[0])   # the stacked sequence, directly or through a local
+                if isinstance(seq, (ast.Tuple, ast.List)):
+                    # which conversion call does each stacked element denote?
+                    order = []
+                    for x in seq.elts:
+                        hit = [i for i, c in enumerate(cs) if wire.is_value_of(f, x, c)]
+                        order.append(hit[0] if len(hit) == 1 else None)
                 ax = wire.kw(stack).get("axis")
                 axis = ast.literal_eval(ax) if ax is not None else 0
-            det = f"components {comps} -> {names}; stack {order} axis={axis}; masks {sorted(masks)}"
-            ok = comps == [0, 1] and order == names and axis == -1 and len(masks) == 1
+            names = [0, 1]
+            stacked = [comps[i] if i is not None else None for i in (order or [])]   # the component each stacked element was converted from
+            det = f"converted components {sorted(c for c in comps if c is not None)}; stacked in order {stacked} axis={axis}; masks {sorted(masks)}"
+            ok = sorted(c for c in comps if c is not None) == [0, 1] and stacked == [0, 1] and axis == -1 and len(masks) == 1
         ctx.ob(rule, key, ok, where=f, node=cs[0] if cs else f.node, construct=det,
                message="component 0 (y) then component 1 (x) must each be converted with the same mask and stacked back in that order on the last axis")
 
@@ -404,7 +410,7 @@ def run(ctx):
     ctx.rule("C01.components", "grid slim/native conversion handles component 0 then 1 with one mask and stacks them back in order")
     gather(ctx, p, K, f"{A2}:array_2d_slim_from", "mask_2d", lambda a, b: E_("array_2d_native", a, b))
     gather(ctx, p, K, f"{A2}:array_2d_slim_complex_from", "mask", lambda a, b: E_("array_2d_native", a, b))
-    gather(ctx, p, K, f"{M2}:native_index_for_slim_index_2d_from", "mask_2d", lambda a, b: (a, b))
+    gather(ctx, p, K, f"{M2}:native_index_for_slim_index_2d_from", "mask_2d", lambda a, b: {(ZERO,): a, (ONE,): b})
     gather(ctx, p, K, f"{A1}:array_1d_slim_from", "mask_1d", lambda a, b: E_("array_1d_native", a), dims=1)
     gather(ctx, p, K, f"{M1}:native_index_for_slim_index_1d_from", "mask_1d", lambda a, b: a, dims=1)
     counting(ctx, p, K, f"{M2}:total_pixels_2d_from", "mask_2d", 2)
